@@ -267,7 +267,7 @@ def run_sharded(report, binary, tier, nshards=None, extra_args=(), config='', de
 
     def one(shard):
         skip = 0
-        restarts = 0
+        restarts = hangs = 0
         while True:
             prog = os.path.join(bdir, 'progress.%s.%d' % (os.path.basename(binary), shard))
             cmd = [binary, '--shard', '%d/%d' % (shard, nshards), '--tier', tier, '--progress', prog,
@@ -313,9 +313,10 @@ def run_sharded(report, binary, tier, nshards=None, extra_args=(), config='', de
                 k = (target, 'hang' if hung else 'crash:rc=%s' % p.returncode)
                 report.clauses[k] = report.clauses.get(k, 0) + 1
                 restarts += 1
-                if restarts > 20:
+                hangs += 1 if hung else 0
+                if restarts > 20 or hangs > 3:     # a hang costs hang_s seconds: a few of them say enough
                     report.exhaustive = False
-                    report.notes.append('shard %d: more than 20 crashes, gave up resuming' % shard)
+                    report.notes.append('shard %d: %d crashes / %d hangs, gave up resuming' % (shard, restarts, hangs))
                     return
                 skip = g
     with ThreadPoolExecutor(max_workers=nshards) as ex:
